@@ -18,14 +18,16 @@ def zand(cs):
 
 
 def check_outcome(I, out, raises=None, returns=None, site=''):
-    """raises: dict class-name -> z3 condition under which (exactly) that exception is the specified outcome.
+    """raises: dict class-name -> z3 condition under which (exactly) that exception is the specified outcome ('*' = an exception of any class: use it
+    where the property does not name the error, so that a maintainer's other choice of exception class is not reported).
     returns: callable(value) -> list of (label, formula).  Anything else is an unexpected outcome."""
     raises = raises or {}
     W = I.world
     if out.kind == 'raise':
         cname = out.value.cls.name
         for spec_name, cond in raises.items():
-            if cname == spec_name or any(c.name == spec_name for c in W.mro(out.value.cls)):
+            # '*': the property only says "is rejected / fails / raises an error" -- any exception class is the specified outcome
+            if spec_name == '*' or cname == spec_name or any(c.name == spec_name for c in W.mro(out.value.cls)):
                 I.ctx.oblige('raises-%s-only-when-specified' % spec_name, cond, site=site)
                 return
         I.ctx.oblige('no-unexpected-exception(%s)' % cname, z3.BoolVal(False), site=site,
